@@ -119,7 +119,7 @@ let on_surface p (tb : (_ * _) list) t tol2 =
 
 let () =
   let mM = ref None and mN = ref None in
-  let parts = ref [] and nparts_rep = ref 0 in
+  let parts = ref [] and nparts_rep = ref (-1) in
   let slice_z = ref None in
   let tol_m = ref { m = 0; e = 0; fin = true } in
   (* generic-position radius: max(scale/2^20, 10 * GetTolerance()) in units of 2^emin (rounded up) *)
